@@ -555,23 +555,34 @@ def drv_classify(case):
     P = _poly(case)
     base = _pp(P, tok)
     out = []
-    for pts in case["points"]:
-        arr = numpy.array(pts, dtype=numpy.int64)
-        sat = P.ineqs_satisfied(arr)
-        sep = P.separable(arr)
-        rowsep = P.ineq_separate_points(arr)
-        def lst(x):
-            x = numpy.asarray(x)
-            return proj.I(x) if x.ndim == 0 else _nest((x * 1).tolist())
-        out.append({"op": "classify", "rows": base["rows"], "cols": base["cols"], "ndim": int(arr.ndim), "points": pts,
-                    "sat": lst(sat), "sep": lst(sep), "rowsep": lst(rowsep),
-                    "shape_sat": list(numpy.asarray(sat).shape), "shape_sep": list(numpy.asarray(sep).shape),
-                    "shape_rowsep": list(numpy.asarray(rowsep).shape)})
+    def lst(x):
+        x = numpy.asarray(x)
+        return proj.I(x) if x.ndim == 0 else _nest((x * 1).tolist())
+    def classify(Q, qbase, pts, k):
+        arr0 = numpy.array(pts, dtype=numpy.int64)
+        # the points in several integer dtypes; 0/1 points also as a bool array
+        dts = [numpy.int64, numpy.int32, numpy.int8]
+        if arr0.size and arr0.min() >= 0 and arr0.max() <= 1: dts.append(numpy.bool_)
+        arr = arr0.astype(dts[k % len(dts)])
+        order = [("sat", Q.ineqs_satisfied), ("sep", Q.separable), ("rowsep", Q.ineq_separate_points)]
+        order = order[k % 3:] + order[:k % 3]            # the three queries in rotating order on the same object
+        res = {name: lst(fn(arr)) for name, fn in order}
+        out.append({"op": "classify", "rows": qbase["rows"], "cols": qbase["cols"], "ndim": int(arr.ndim), "points": pts,
+                    "sat": res["sat"], "sep": res["sep"], "rowsep": res["rowsep"], "dtype": str(arr.dtype)})
+    for k, pts in enumerate(case["points"]):
+        classify(P, base, pts, k + case.get("k", 0))
+    # polyhedra DERIVED from an already queried one (numpy views / arithmetic / edited copies) must answer for their own rows
+    if len(base["rows"]) >= 1 and case["points"]:
+        derived = [P[::-1], P * 2, P.copy()]
+        derived[2][0, 0] += 1
+        for j, Q in enumerate(derived):
+            qb = _pp(pnd.ge_polyhedron(numpy.asarray(Q), variables=list(P.variables)), tok)
+            classify(Q, qb, case["points"][j % len(case["points"])], j + case.get("k", 0))
     return out
 
 def _real_id(x):
     """spec id tokens -> real ids of various Python types (non-string and unicode ids are legitimate)"""
-    return {"n7": 7, "uml": "üß", "fz": frozenset({"q"})}.get(x, x)
+    return {"n7": 7, "uml": "üß", "fz": frozenset({"q"}), "n1": 1, "s1": "1", "nul": "a\x00"}.get(x, x)
 
 def drv_bridge(case):
     import numpy, puan, puan.ndarray as pnd
@@ -581,16 +592,21 @@ def drv_bridge(case):
     arr = pnd.variable_ndarray(numpy.zeros((1, len(vs)), dtype=numpy.int64), variables=vs)
     d = {_real_id(k): v for k, v in case["dict"].items()}
     out = []
-    for kind in ("lower", "nan", "fn"):
+    for kind in ("lower", "nan", "fn", "fn_float", "lower32"):
         if kind == "lower":
             res = arr.construct(dict(d)); fn = {}
+        elif kind == "lower32":
+            res = arr.construct(dict(d), dtype=numpy.int32); fn = {}
         elif kind == "nan":
             res = arr.construct(dict(d), dtype=numpy.float64); fn = {}
+        elif kind == "fn_float":
+            fn = {v.id: 20 + j for j, v in enumerate(vs)}
+            res = arr.construct(dict(d), default_value=lambda v: fn[v.id], dtype=numpy.float64)
         else:
             fn = {v.id: 10 + j for j, v in enumerate(vs)}
             res = arr.construct(dict(d), default_value=lambda v: fn[v.id])
         r = [[1, 0] if (isinstance(x, float) and x != x) else [0, proj.I(x)] for x in numpy.asarray(res).tolist()]
-        out.append({"op": "construct", "vars": pv, "dict": [[tok(k), proj.I(v)] for k, v in d.items()], "kind": kind,
+        out.append({"op": "construct", "vars": pv, "dict": [[tok(k), proj.I(v)] for k, v in d.items()], "kind": {"fn_float": "fn", "lower32": "lower"}.get(kind, kind),
                     "fnvals": [[tok(k), v] for k, v in fn.items()], "res": r, "dtype": str(numpy.asarray(res).dtype)})
     out.append({"op": "partition", "vars": pv, "bool_idx": [proj.I(x) for x in numpy.asarray(arr.boolean_variable_indices).tolist()],
                 "int_idx": [proj.I(x) for x in numpy.asarray(arr.integer_variable_indices).tolist()]})
